@@ -290,6 +290,69 @@ impl SuffixArray {
     }
 }
 
+/// Verification hook: records, per recursion level of SA-IS, the intermediate arrays (suffix types,
+/// LMS positions, first induced-sort pass, LMS names). Compiled only with `--cfg zipora_verif`;
+/// recording is off unless `start()` was called on the current thread.
+#[cfg(zipora_verif)]
+pub mod verif_trace {
+    use std::cell::RefCell;
+
+    /// One recursion level of `sais_construct_with_depth`
+    #[derive(Debug, Clone, Default)]
+    pub struct SaisLevel {
+        /// Recursion depth (0 = the byte text)
+        pub depth: usize,
+        /// Length of the text at this level
+        pub n: usize,
+        /// Alphabet size at this level
+        pub alphabet_size: usize,
+        /// Suffix types (true = S-type)
+        pub suffix_types: Vec<bool>,
+        /// LMS positions in text order
+        pub lms_suffixes: Vec<usize>,
+        /// Result of the first induced-sort pass
+        pub first_pass: Vec<usize>,
+        /// Names of the LMS substrings in text order (empty when there is at most one LMS suffix)
+        pub lms_names: Vec<usize>,
+        /// Number of distinct names
+        pub num_names: usize,
+        /// Whether the level recursed on the names
+        pub recursed: bool,
+    }
+
+    thread_local! {
+        static TRACE: RefCell<Option<Vec<SaisLevel>>> = RefCell::new(None);
+    }
+
+    /// Start recording on this thread (clears any previous recording)
+    pub fn start() {
+        TRACE.with(|t| *t.borrow_mut() = Some(Vec::new()));
+    }
+
+    /// Stop recording and return the levels recorded since `start()`
+    pub fn take() -> Vec<SaisLevel> {
+        TRACE.with(|t| t.borrow_mut().take().unwrap_or_default())
+    }
+
+    pub(super) fn set_recursed(depth: usize) {
+        TRACE.with(|t| {
+            if let Some(v) = t.borrow_mut().as_mut() {
+                if let Some(l) = v.iter_mut().rev().find(|l| l.depth == depth) {
+                    l.recursed = true;
+                }
+            }
+        });
+    }
+
+    pub(super) fn push(level: SaisLevel) {
+        TRACE.with(|t| {
+            if let Some(v) = t.borrow_mut().as_mut() {
+                v.push(level);
+            }
+        });
+    }
+}
+
 /// Builder for constructing suffix arrays
 pub struct SuffixArrayBuilder {
     config: SuffixArrayConfig,
@@ -464,6 +527,18 @@ impl SuffixArrayBuilder {
         let sa = self.induced_sort(text, &lms_suffixes, &suffix_types, &bucket_heads, &bucket_tails);
         if lms_suffixes.len() <= 1 {
             // Zero or one LMS suffix: they are trivially sorted, so the induction is final
+            #[cfg(zipora_verif)]
+            verif_trace::push(verif_trace::SaisLevel {
+                depth,
+                n,
+                alphabet_size,
+                suffix_types: suffix_types.clone(),
+                lms_suffixes: lms_suffixes.clone(),
+                first_pass: sa.clone(),
+                lms_names: Vec::new(),
+                num_names: 0,
+                recursed: false,
+            });
             return Ok(sa);
         }
 
@@ -471,8 +546,23 @@ impl SuffixArrayBuilder {
         let lms_sa = self.compact_lms_suffixes(&sa, &is_lms);
         let (lms_names, num_names) = self.name_lms_substrings(text, &lms_sa, &lms_suffixes, &is_lms)?;
 
+        #[cfg(zipora_verif)]
+        verif_trace::push(verif_trace::SaisLevel {
+            depth,
+            n,
+            alphabet_size,
+            suffix_types: suffix_types.clone(),
+            lms_suffixes: lms_suffixes.clone(),
+            first_pass: sa.clone(),
+            lms_names: lms_names.clone(),
+            num_names,
+            recursed: false,
+        });
+
         let sorted_lms: Vec<usize> = if num_names < lms_suffixes.len() {
             // Not all LMS substrings are unique, recursively sort them with depth tracking
+            #[cfg(zipora_verif)]
+            verif_trace::set_recursed(depth);
             let reduced_sa = self.sais_construct_with_depth(&lms_names, num_names, depth + 1)?;
 
             // Map back to original indices
